@@ -89,14 +89,29 @@ func vcNet(n *net.IPNet) string {
 	}
 	return fmt.Sprintf("(mkNet %s %s %s)", vcN(bits), vcBigN(base), vcN(ones))
 }
+// the reference reading of one allow entry, written here independently of Provision: CIDR
+// notation, or a bare address standing for the single-host range (/32 for IPv4 - also when it
+// is written IPv4-mapped -, /128 for IPv6)
+func vC12AllowNet(entry string) *net.IPNet {
+	if _, n, err := net.ParseCIDR(entry); err == nil {
+		return n
+	}
+	a, err := netip.ParseAddr(entry)
+	if err != nil {
+		panic("bad allow entry " + entry)
+	}
+	a = a.Unmap()
+	if a.Is4() {
+		b := a.As4()
+		return &net.IPNet{IP: net.IP(b[:]), Mask: net.CIDRMask(32, 32)}
+	}
+	b := a.As16()
+	return &net.IPNet{IP: net.IP(b[:]), Mask: net.CIDRMask(128, 128)}
+}
 func vcNets(cidrs []string) string {
 	ss := make([]string, len(cidrs))
 	for i, c := range cidrs {
-		_, n, err := net.ParseCIDR(c)
-		if err != nil {
-			panic(err)
-		}
-		ss[i] = vcNet(n)
+		ss[i] = vcNet(vC12AllowNet(c))
 	}
 	return "[" + strings.Join(ss, "; ") + "]"
 }
@@ -670,9 +685,12 @@ func (e *vC12) mutateV2(in []byte) []byte {
 // --- 2. allow list
 
 var vC12Cidrs = []string{"10.0.0.0/8", "10.1.0.0/16", "10.1.2.0/24", "10.1.2.3/32", "0.0.0.0/0", "192.168.0.0/16", "127.0.0.0/8", "172.16.0.0/12",
-	"::1/128", "2001:db8::/32", "2001:db8:1::/48", "::/0", "::ffff:10.0.0.0/104", "fe80::/10", "10.1.2.77/24", "2001:db8:1:2::9/64", "::ffff:0:0/96", "0.0.0.0/1", "128.0.0.0/1"}
+	"::1/128", "2001:db8::/32", "2001:db8:1::/48", "::/0", "::ffff:10.0.0.0/104", "fe80::/10", "10.1.2.77/24", "2001:db8:1:2::9/64", "::ffff:0:0/96", "0.0.0.0/1", "128.0.0.0/1",
+	// bare addresses: single-host ranges
+	"10.0.0.5", "10.1.2.3", "192.168.5.5", "::1", "2001:db8:1::5", "::ffff:10.9.9.9", "10.0.0.5", "fe80::1"}
 var vC12Peers = []string{"10.1.2.3", "10.1.2.4", "10.1.3.4", "10.2.0.1", "11.0.0.1", "127.0.0.1", "192.168.5.5", "172.31.255.255", "172.32.0.0", "::1", "::2",
-	"2001:db8:1::5", "2001:db8:2::5", "2001:db9::", "fe80::1", "febf::1", "fec0::1", "::ffff:10.9.9.9", "::ffff:11.9.9.9", "8.8.8.8", "200.1.1.1", "0.0.0.0", "::"}
+	"2001:db8:1::5", "2001:db8:2::5", "2001:db9::", "fe80::1", "febf::1", "fec0::1", "::ffff:10.9.9.9", "::ffff:11.9.9.9", "8.8.8.8", "200.1.1.1", "0.0.0.0", "::",
+	"10.0.0.5", "10.0.0.4", "10.0.0.6", "10.9.9.9", "2001:db8:1::4", "172.16.3.4"}
 
 func vC12RandAllow(r *vRng) []string {
 	n := []int{0, 1, 1, 2, 3, 4, 6}[r.Intn(7)]
@@ -721,7 +739,10 @@ func vC12Allowed(allow []string, remote net.Addr) bool {
 	}
 	a = a.Unmap()
 	for _, c := range allow {
-		p := netip.MustParsePrefix(c)
+		rn := vC12AllowNet(c)
+		ones, _ := rn.Mask.Size()
+		ra, _ := netip.AddrFromSlice(rn.IP)
+		p := netip.PrefixFrom(ra, ones)
 		pa := p.Addr()
 		bits := p.Bits()
 		if pa.Is4In6() && bits >= 96 {
@@ -754,8 +775,7 @@ func (e *vC12) allowCases(allow []string, timeout time.Duration) {
 	// the rule set must be exactly the configured set
 	want := map[string]bool{}
 	for _, c := range allow {
-		_, n, _ := net.ParseCIDR(c)
-		want[n.String()] = true
+		want[vC12AllowNet(c).String()] = true
 	}
 	got := map[string]bool{}
 	for _, r := range h.rules {
@@ -1144,7 +1164,8 @@ func TestVerifC12(t *testing.T) {
 	// ---- 2. allow list
 	fixed := [][]string{nil, {"10.0.0.0/8"}, {"10.1.2.0/24", "10.0.0.0/8", "10.1.2.0/24"}, {"::1/128", "127.0.0.0/8"}, {"::ffff:10.0.0.0/104"},
 		{"2001:db8::/32", "10.0.0.0/8", "2001:db8::/32", "10.0.0.0/8", "fe80::/10"}, {"0.0.0.0/0"}, {"::/0"}, {"0.0.0.0/1", "128.0.0.0/1"},
-		{"10.0.0.0/8", "11.0.0.0/8", "10.0.0.0/8"}, {"10.1.2.77/24", "10.1.2.0/24"}}
+		{"10.0.0.0/8", "11.0.0.0/8", "10.0.0.0/8"}, {"10.1.2.77/24", "10.1.2.0/24"},
+		{"10.0.0.5"}, {"::1"}, {"10.0.0.5", "2001:db8:1::5"}, {"::ffff:10.9.9.9"}, {"10.0.0.5", "10.0.0.5/32", "192.168.0.0/16"}, {"fe80::1", "10.1.2.3"}}
 	for _, a := range fixed {
 		e.allowCases(a, 0)
 	}
